@@ -46,6 +46,9 @@ type gctx struct {
 	tparams []TParam // in scope
 	n       int      // label counter
 	pkgKeys []string
+	// names of the types and package qualifiers mentioned by the signature being named:
+	// hostile identifiers are preferably drawn from these, because only they can capture
+	sigTypeNames, sigQuals []string
 }
 
 func (g *gctx) lbl(s string) string { g.n++; return fmt.Sprintf("%s#%d", s, g.n) }
@@ -93,6 +96,19 @@ func (g *gctx) named(depth int, pred func(TypeInfo) bool) (Ty, bool) {
 	cands := g.typesWhere(pred)
 	if len(cands) == 0 {
 		return Ty{}, false
+	}
+	// types of the source package itself are rendered unqualified in-package, which is where
+	// identifier capture can happen: give them a third of the draws
+	if g.intn("preferlocal", 0, 2) == 0 {
+		var local []TypeInfo
+		for _, c := range cands {
+			if c.Pkg == "" {
+				local = append(local, c)
+			}
+		}
+		if len(local) > 0 {
+			cands = local
+		}
 	}
 	ti := cands[g.intn("named", 0, len(cands)-1)]
 	t := Ty{K: "named", Pkg: ti.Pkg, Name: ti.Name}
@@ -250,7 +266,7 @@ var IdentClasses = map[string][]string{
 	"predeclared": {"string", "int", "error", "len", "append", "nil", "true", "any", "new", "make", "bool", "byte", "panic", "cap", "iota", "false"},
 	"template":    {"_mock", "_m", "_e", "_c", "_va", "_ca", "_i", "ret", "ret1", "r0", "r1", "ok", "returnFunc", "tmpRet", "run", "args", "variadicArgs", "i", "mock", "callInfo", "calls", "t"},
 	"unicode":     {"ñame", "δ", "名前", "été"},
-	"typename":    {"T", "I", "Local", "Fn", "LIface", "MyInt", "Reader", "Context"},
+	"typename":    {"T", "I", "Local", "Fn", "LIface", "MyInt", "Reader", "Context", "LGen", "LGI", "G", "LStr"},
 	"suffixed":    {"a1", "a2", "x0", "val1", "ret0"},
 }
 
@@ -264,6 +280,12 @@ func (g *gctx) ident(used map[string]bool) string {
 		} else {
 			cl := g.pick("cls", identClassOrder)
 			name = g.pick("hostile", IdentClasses[cl])
+			if cl == "typename" && len(g.sigTypeNames) > 0 && g.intn("fromsig", 0, 1) == 0 {
+				name = g.pick("sigtype", g.sigTypeNames)
+			}
+			if cl == "qualifier" && len(g.sigQuals) > 0 && g.intn("fromsig", 0, 1) == 0 {
+				name = g.pick("sigqual", g.sigQuals)
+			}
 			if g.o.avoid("ident:"+name) || g.o.avoid("identclass:"+cl) {
 				g.o.steered("ident:" + name)
 				continue
@@ -325,6 +347,22 @@ func (g *gctx) sig(depth, maxP, maxR int, inner bool) Sig {
 		}
 		s.Results = append(s.Results, Var{T: rt})
 	}
+	g.sigTypeNames, g.sigQuals = nil, nil
+	seenN := map[string]bool{}
+	WalkSig(s, func(t Ty) {
+		if t.K == "named" {
+			if !seenN["t:"+t.Name] {
+				seenN["t:"+t.Name] = true
+				g.sigTypeNames = append(g.sigTypeNames, t.Name)
+			}
+			if t.Pkg != "" {
+				if q := LookupPkg(t.Pkg).Name; !seenN["q:"+q] {
+					seenN["q:"+q] = true
+					g.sigQuals = append(g.sigQuals, q)
+				}
+			}
+		}
+	})
 	used := map[string]bool{}
 	switch m := g.intn("pnaming", 0, 9); {
 	case m == 0: // unnamed
